@@ -301,7 +301,17 @@ func (o *optimizer) etaReduction() {
 			args := ctx.Binds["args"].(ExprsNode)
 			fun, _ := ctx.Binds["fun"].(ast.Expr)
 			if matched(ctx, params, args) && fun != nil && stableCallee(ctx, fun, false) {
-				c.Replace(fun)
+				// the literal and its callee must have the very same function type:
+				// `func() error { return f() }` with f() *T, or `func(xs []int) int
+				// { return g(xs...) }` with a variadic g, are conversions, not eta-redexes
+				lit, _ := c.Node().(*ast.FuncLit)
+				if lit == nil {
+					return
+				}
+				lt, ft := ctx.TypeOf(lit), ctx.TypeOf(fun)
+				if lt != nil && ft != nil && types.Identical(lt, ft) {
+					c.Replace(fun)
+				}
 			}
 		},
 	)
